@@ -10,6 +10,7 @@ CONSTANTS
   FixD1 = TRUE
   FixD2 = TRUE
   FixFuse = TRUE
+  FixAcc = TRUE
   NoFold = FALSE
 INVARIANTS
   TypeOK
